@@ -498,8 +498,8 @@ def instantiate_axioms(formulas, rounds=5):
         apps = []
         for f in work:
             _walk(f, seen, apps)
-        if rnd == 0:
-            # seeds of the eager application: equation sides of the *given* formulas only (not of derived axioms)
+        if rnd <= 2:
+            # seeds of the eager application: sequences that are one side of an equation
             _collect_concats(work, cseen, concats)
         for sf, app in apps:
             ex = tuple(app.arg(i) for i in range(sf.nextra))
